@@ -29,6 +29,27 @@ The Diagonal rule of svd takes `xnp.abs` as a further parameter (values NumPy co
 payloads have any sign / phase and zeros; when every modulus is exactly representable (real, imaginary, Pythagorean entries)
 the driver evaluates the property EXACTLY, otherwise the numerical oracle decides and U is tied to 4 ulp.
 
+Operator kinds (round 2).  `KindGen` builds a well-conditioned, full-rank instance (cond <= 16, checked numerically on the
+represented matrix) of EVERY operator kind of the case language - Dense, no_dispatch, Triangular, Sparse, ScalarMul, Identity,
+Diagonal, Tridiagonal, Permutation, Householder, Product (square factors, tall @ square, square @ wide, WIDE @ TALL and
+wide @ square @ tall: square products of non-square factors, Diagonal @ Dense, ScalarMul @ Dense), Sum, Kronecker, KronSum,
+BlockDiag (with multiplicities), Transpose / Adjoint (of Dense and of Product), Sliced, Concatenated (both axes), and the declared
+PSD / SelfAdjoint / Unitary / Stiefel wrappers - and every one goes through the same three-way comparison for pinv (all four
+algorithm arguments, against np.linalg.pinv of the driver's `den`) and svd (DenseSVD; Lanczos where the singular values are
+separated).  `dispatch_stream` reads the LIVE plum tables of `pinv` and `svd` (signatures, precedences, conditions): every
+signature the model does not know (MODELLED) is a broken correspondence, and the catalogue instances that match its types
+AND its condition (evaluated by calling the live condition) are searched for a concrete failing input.
+
+LOBPCG (round 2: no longer "smoke").  cola's `lobpcg` computes in single precision (float32, complex64 for complex operators;
+lobpcg.py casts every product): the claim checked is the property at the SINGLE-precision tolerances (x SINGLE_FACTOR), for real
+and complex operators, which in {'LM', 'SM'} (the rule passes largest = (which == 'LM')), k < n, through the full three-way
+comparison.  k >= n is the recorded finding `lobpcg-k-ge-n` (known_findings.json; Model/Svd.lean: lobpcgClauses).
+
+Partial Lanczos runs (max_iters < Gram size) return Ritz triplets, not singular triplets; what the property claims for them
+and what is checked (at the same tolerances): orthonormal U and V, Sigma diagonal real non-negative, the residual identity
+U Sigma V^H = A V V^H (tall / square) resp. U U^H A (wide), and sigma_min(A) <= Sigma <= sigma_max(A) (C16_krylov_tall_ritz).
+Larger sizes (up to 60 x 40; thorough 120 x 80) run on the float side only (real code + oracle, no exact model run).
+
 Reading of the property (documented, see Properties/C16.lean): DenseSVD ignores k and which and always returns all
 min(m, n) triplets (then U Sigma V^H = A is required); "best rank-k approximation" is the truncated SVD on the selected
 singular values (Eckart-Young itself is not re-proved); full rank is a hypothesis of the pinv statement (zeros on a
@@ -59,6 +80,8 @@ DRIVER = "DriverC16.lean"
 # (both defects this check found - svd(Diagonal) returning negative / complex "singular values" and pinv(A, CG()) raising
 #  TypeError for complex operators - are repaired in /repo: commits "fix: svd of a Diagonal operator returns non-negative
 #  singular values" and "fix: pinv(A, CG()) works for complex operators"; the model follows the repaired code.)
+# (round 2: svd through LOBPCG lost the imaginary part of complex operators and returned the smallest of the n-1 LARGEST singular values
+#  for 'SM' - both repaired in /repo 7c689b5; `lobpcg-k-ge-n` is RECORDED in /verif/known_findings.json and matched through common.known_clauses.)
 PROVISIONAL_KNOWN = {}
 # --------------------------------------------------------------------------------------------
 
@@ -146,6 +169,7 @@ class Lib:
         import sys
         self.Lanczos, self.get_slice, self.lanczos_eigs, self.CG = Lanczos, get_slice, lanczos_eigs, CG
         self.LOBPCG = sys.modules["cola.linalg.eig.lobpcg"].LOBPCG
+        self.lobpcg = sys.modules["cola.linalg.eig.lobpcg"].lobpcg
         self.Auto = cola.linalg.Auto
 
     def svd_alg(self, name, g):
@@ -228,6 +252,242 @@ def make_operand(g, m, n, cplx, wrapper):
     return e
 
 
+# ------------------------------------------------------------------ operator kinds (round 2)
+COND_MAX = 16.0     # the generator's conditioning bound (the same as make_matrix: sigma in [0.5, 8])
+SEP_MIN = 0.03      # Lanczos cases need separated singular values: min_i (s_i - s_{i+1}) / s_i >= SEP_MIN
+
+
+def wc_mat(g, m, n, cplx, lo=1.0, hi=2.0):
+    """dense m x n, singular values spread over [lo, hi] (jittered), random singular vectors"""
+    r = min(m, n)
+    U0, V0 = unitary(g, m, cplx), unitary(g, n, cplx)
+    sig = hi * (lo / hi) ** (np.arange(r) / max(r - 1, 1)) * g.uniform(0.97, 1.03, r)
+    return (U0[:, :r] * sig) @ V0[:, :r].conj().T
+
+
+def hpd_mat(g, n, cplx, lo=1.0, hi=3.0):
+    Q = unitary(g, n, cplx)
+    ev = hi * (lo / hi) ** (np.arange(n) / max(n - 1, 1)) * g.uniform(0.97, 1.03, n)
+    M = (Q * ev) @ Q.conj().T
+    return (M + M.conj().T) / 2      # exactly Hermitian
+
+
+def herm_indef_mat(g, n, cplx):
+    Q = unitary(g, n, cplx)
+    ev = np.linspace(2.0, 1.0, n) * g.uniform(0.97, 1.03, n) * np.where(np.arange(n) % 2 == 0, 1.0, -1.0)
+    M = (Q * ev) @ Q.conj().T
+    return (M + M.conj().T) / 2
+
+
+def kdt(cplx):
+    return "c128" if cplx else "f64"
+
+
+def kdense(M, cplx):
+    M = np.asarray(M)
+    return ["dense", kdt(cplx), int(M.shape[0]), int(M.shape[1]), exmat(M)]
+
+
+def shape_of_class(rng, cls, lo=2, hi=6):
+    """(m, n) of the requested class"""
+    if cls == "square":
+        n = rng.randint(lo, hi)
+        return n, n
+    a, b = rng.randint(lo, hi - 1), rng.randint(1, 3)
+    return (a + b, a) if cls == "tall" else (a, a + b)
+
+
+# kind label -> shape classes it is generated in
+KIND_TABLE = {
+    "dense": ["tall", "wide", "square"], "generic": ["tall", "wide", "square"], "sparse": ["tall", "wide", "square"],
+    "tri": ["square"], "scalar": ["square"], "eye": ["square"], "diag": ["square"], "tridiag": ["square"], "perm": ["square"],
+    "house": ["square"],
+    "prod-sq-sq": ["square"], "prod-tall-sq": ["tall"], "prod-sq-wide": ["wide"], "prod-tall-tall": ["tall"],
+    "prod-wide-tall": ["square"], "prod-wide-sq-tall": ["square"], "prod-diag-dense": ["tall", "square"],
+    "prod-scalar-dense": ["wide", "square"], "prod-dense-eye": ["tall"],
+    "sum": ["tall", "wide", "square"], "sum-diag-dense": ["square"], "sum-3": ["square"],
+    "kron": ["tall", "wide", "square"], "kron-diag-dense": ["square"], "kronsum": ["square"],
+    "bdiag": ["tall", "wide", "square"], "bdiag-mult": ["tall", "square"],
+    "T": ["tall", "wide", "square"], "H": ["tall", "wide", "square"], "T-prod": ["tall", "wide"], "H-sum": ["square"],
+    "slice": ["tall", "wide", "square"], "concat0": ["tall", "square"], "concat1": ["wide", "square"],
+    "ann-psd": ["square"], "ann-selfadjoint": ["square"], "ann-unitary": ["square"], "ann-stiefel": ["tall"],
+    "ann-psd-kron": ["square"], "ann-psd-generic": ["square"],
+}
+
+
+class KindGen:
+    """well-conditioned full-rank instances of every operator kind of the case language"""
+
+    def __init__(self, rng, g):
+        self.rng, self.g = rng, g
+
+    def d(self, m, n, cplx, lo=1.0, hi=2.0):
+        return kdense(wc_mat(self.g, m, n, cplx, lo, hi), cplx)
+
+    def diag_entries(self, n, cplx):
+        mag = np.linspace(3.0, 1.0, n) * self.g.uniform(0.95, 1.05, n) if n > 1 else np.array([2.0])
+        ph = np.exp(1j * self.g.uniform(0, 2 * np.pi, n)) if cplx else np.where(self.g.random(n) < 0.5, 1.0, -1.0)
+        return self.g.permutation(mag * ph)
+
+    def expr(self, kind, cls, cplx):
+        rng, g, d = self.rng, self.g, self.d
+        dt = kdt(cplx)
+        m, n = shape_of_class(rng, cls)
+        if kind == "dense":
+            return d(m, n, cplx, 0.6, 6.0)
+        if kind == "generic":
+            return ["generic", d(m, n, cplx, 0.8, 5.0)]
+        if kind == "sparse":
+            M = wc_mat(g, m, n, cplx, 1.0, 4.0)
+            return ["sparse", dt, m, n, [[i, j, exz(M[i, j])] for i in range(m) for j in range(n)]]
+        if kind == "tri":
+            M = np.tril(0.35 * (g.standard_normal((n, n)) + (1j * g.standard_normal((n, n)) if cplx else 0)), -1) + np.diag(self.diag_entries(n, cplx))
+            lower = rng.random() < 0.5
+            M = M if lower else M.T
+            return ["tri", dt, n, n, lower, exmat(M)]
+        if kind == "scalar":
+            c = complex(self.diag_entries(1, cplx)[0])
+            return ["scalar", dt, exz(c), n]
+        if kind == "eye":
+            return ["eye", dt, n]
+        if kind == "diag":
+            return ["diag", dt, exvec(self.diag_entries(n, cplx))]
+        if kind == "tridiag":
+            be = self.diag_entries(n, cplx) + 2.0 * np.sign(np.real(self.diag_entries(n, cplx)) + 1e-9)
+            al = 0.5 * (g.standard_normal(n - 1) + (1j * g.standard_normal(n - 1) if cplx else 0))
+            ga = 0.5 * (g.standard_normal(n - 1) + (1j * g.standard_normal(n - 1) if cplx else 0))
+            return ["tridiag", dt, exvec(al), exvec(be), exvec(ga)]
+        if kind == "perm":
+            p = list(range(n))
+            rng.shuffle(p)
+            return ["perm", dt, p]
+        if kind == "house":
+            v = g.standard_normal(n) + (1j * g.standard_normal(n) if cplx else 0)
+            beta = float(g.uniform(0.4, 0.7) / np.real(np.vdot(v, v)))
+            return ["house", dt, exvec(v), exq(beta)]
+        if kind == "prod-sq-sq":
+            return ["prod", d(n, n, cplx), d(n, n, cplx)]
+        if kind == "prod-tall-sq":
+            return ["prod", d(m, n, cplx), d(n, n, cplx)]
+        if kind == "prod-sq-wide":
+            return ["prod", d(m, m, cplx), d(m, n, cplx)]
+        if kind == "prod-tall-tall":
+            p = m - 1 if m - 1 > n else m
+            return ["prod", d(m + 1, p, cplx), d(p, n, cplx)] if p > n else ["prod", d(m, n, cplx), d(n, n, cplx)]
+        if kind == "prod-wide-tall":           # a SQUARE product of non-square factors (inner dimension larger)
+            p = n + rng.randint(1, 3)
+            return ["prod", d(n, p, cplx), d(p, n, cplx)]
+        if kind == "prod-wide-sq-tall":
+            p = n + rng.randint(1, 2)
+            return ["prod", d(n, p, cplx), d(p, p, cplx, 1.0, 1.5), d(p, n, cplx)]
+        if kind == "prod-diag-dense":
+            return ["prod", ["diag", dt, exvec(self.diag_entries(m, cplx))], d(m, n, cplx)]
+        if kind == "prod-scalar-dense":
+            return ["prod", ["scalar", dt, exz(complex(self.diag_entries(1, cplx)[0])), m], d(m, n, cplx)]
+        if kind == "prod-dense-eye":
+            return ["prod", d(m, n, cplx, 0.8, 4.0), ["eye", dt, n]]
+        if kind == "sum":
+            A = wc_mat(g, m, n, cplx, 0.8, 5.0)
+            N = 0.25 * (g.standard_normal((m, n)) + (1j * g.standard_normal((m, n)) if cplx else 0))
+            return ["sum", kdense(A / 2 + N, cplx), kdense(A / 2 - N, cplx)]
+        if kind == "sum-diag-dense":
+            return ["sum", ["diag", dt, exvec(4.0 + np.abs(self.diag_entries(n, cplx)))], d(n, n, cplx, 0.5, 1.5)]
+        if kind == "sum-3":
+            return ["sum", kdense(hpd_mat(g, n, cplx), cplx), ["scalar", dt, 2, n], ["diag", dt, exvec(np.abs(self.diag_entries(n, cplx)))]]
+        if kind == "kron":
+            if cls == "square":
+                a, b = rng.choice([(2, 2), (2, 3), (3, 2)])
+                return ["kron", d(a, a, cplx), d(b, b, cplx)]
+            (a, b), (c, e) = ((3, 2), (2, 1)) if rng.random() < 0.5 else ((2, 2), (3, 2))
+            X, Y = ((a, b), (c, e)) if cls == "tall" else ((b, a), (e, c))
+            return ["kron", d(X[0], X[1], cplx), d(Y[0], Y[1], cplx)]
+        if kind == "kron-diag-dense":
+            a, b = rng.choice([(2, 3), (3, 2), (2, 2)])
+            return ["kron", ["diag", dt, exvec(self.diag_entries(a, cplx))], d(b, b, cplx)]
+        if kind == "kronsum":
+            a, b = rng.choice([(2, 2), (2, 3), (3, 2)])
+            return ["kronsum", kdense(hpd_mat(g, a, cplx), cplx), kdense(hpd_mat(g, b, cplx, 1.0, 2.0), cplx)]
+        if kind == "bdiag":
+            if cls == "square":
+                return ["bdiag", [d(2, 2, cplx), d(3, 3, cplx, 1.0, 2.5), ["diag", dt, exvec(self.diag_entries(2, cplx))]], [1, 1, 1]]
+            X, Y = ((3, 2), (2, 1)) if cls == "tall" else ((2, 3), (1, 2))
+            return ["bdiag", [d(X[0], X[1], cplx), d(Y[0], Y[1], cplx, 1.5, 2.5)], [1, 1]]
+        if kind == "bdiag-mult":
+            if cls == "square":
+                return ["bdiag", [d(2, 2, cplx), ["scalar", dt, exz(complex(self.diag_entries(1, cplx)[0])), 1]], [2, 3]]
+            return ["bdiag", [d(3, 2, cplx), d(2, 2, cplx, 1.2, 2.6)], [2, 1]]
+        if kind == "T":
+            return ["T", d(n, m, cplx, 0.7, 5.0)]
+        if kind == "H":
+            return ["H", d(n, m, cplx, 0.7, 5.0)]
+        if kind == "T-prod":       # (B C)^T of shape m x n: B C is n x m
+            p = max(m, n)
+            return ["T", ["prod", d(n, p, cplx), d(p, m, cplx)]]
+        if kind == "H-sum":
+            return ["H", ["sum", d(n, n, cplx, 2.0, 4.0), ["diag", dt, exvec(0.3 * self.diag_entries(n, cplx))]]]
+        if kind == "slice":
+            M = wc_mat(g, m + 2, n + 1, cplx, 1.0, 3.0)
+            return ["slice", kdense(M, cplx), {"s": [1, m + 1, None]}, {"s": [None, n, None]}]
+        if kind == "concat0":
+            a = rng.randint(1, m - 1)
+            return ["concat", 0, d(a, n, cplx, 1.0, 3.0), d(m - a, n, cplx, 1.0, 3.0)]
+        if kind == "concat1":
+            a = rng.randint(1, n - 1)
+            return ["concat", 1, d(m, a, cplx, 1.0, 3.0), d(m, n - a, cplx, 1.0, 3.0)]
+        if kind == "ann-psd":
+            return ["ann", "PSD", kdense(hpd_mat(g, n, cplx, 0.7, 5.0), cplx)]
+        if kind == "ann-selfadjoint":
+            return ["ann", "SelfAdjoint", kdense(herm_indef_mat(g, n, cplx), cplx)]
+        if kind == "ann-unitary":
+            return ["ann", "Unitary", kdense(unitary(g, n, cplx), cplx)]
+        if kind == "ann-stiefel":
+            return ["ann", "Stiefel", kdense(unitary(g, m, cplx)[:, :n], cplx)]
+        if kind == "ann-psd-kron":
+            return ["ann", "PSD", ["kron", kdense(hpd_mat(g, 2, cplx), cplx), kdense(hpd_mat(g, 3, cplx, 1.0, 2.0), cplx)]]
+        if kind == "ann-psd-generic":
+            return ["ann", "PSD", ["generic", kdense(hpd_mat(g, n, cplx), cplx)]]
+        raise ValueError(kind)
+
+    def instance(self, kind, cls, cplx, tries=40):
+        """-> dict(kind, cls, cplx, op, cond, sep) with cond <= COND_MAX; the instance with the best separation of `tries`
+        (stops at the first one with sep >= SEP_MIN); None if no candidate is well conditioned"""
+        best = None
+        for _ in range(tries):
+            e = self.expr(kind, cls, cplx)
+            try:
+                Ad = np.asarray(build.Builder().build(e).to_dense())
+            except Exception:  # noqa: BLE001
+                continue
+            if not finite(Ad) or min(Ad.shape) == 0:
+                continue
+            sv = np.linalg.svd(Ad, compute_uv=False)
+            if sv[-1] <= 0 or sv[0] / sv[-1] > COND_MAX or sv[0] > 64 or sv[-1] < 1 / 64:
+                continue
+            sep = float(np.min((sv[:-1] - sv[1:]) / sv[:-1])) if len(sv) > 1 else 1.0
+            cand = {"kind": kind, "cls": cls, "cplx": cplx, "op": e, "cond": float(sv[0] / sv[-1]), "sep": sep,
+                    "shape": [int(Ad.shape[0]), int(Ad.shape[1])]}
+            if best is None or sep > best["sep"]:
+                best = cand
+            if sep >= SEP_MIN:
+                break
+        return best
+
+    def catalogue(self, thorough):
+        out, missing = [], []
+        for kind, classes in KIND_TABLE.items():
+            cls_list = classes if thorough else [self.rng.choice(classes)]
+            if not thorough and kind.startswith("prod"):
+                cls_list = classes
+            for cls in cls_list:
+                for cplx in ((False, True) if thorough or kind.startswith(("prod", "ann")) else (self.rng.random() < 0.5,)):
+                    inst = self.instance(kind, cls, cplx)
+                    if inst is None:
+                        missing.append([kind, cls, cplx])
+                    else:
+                        out.append(inst)
+        return out, missing
+
+
 def shape_list(rng, thorough):
     shapes = [(m, n) for m in range(2, 9) for n in range(2, 9)]
     if thorough:
@@ -253,6 +513,14 @@ def svd_cases(ctx, rng, g):
                 for k in ks:
                     for which in ("LM", "SM"):
                         cases.append({"fn": "svd", "op": e, "k": k, "which": which, "alg": "lanczos", "wrapper": wrapper})
+                # partial runs: max_iters = j < Gram size (Ritz triplets; what is claimed for them: see the module docstring)
+                gsz = gram_size(m, n)
+                if gsz > 1:
+                    js = list(range(1, gsz)) if ctx.thorough else rng.sample(range(1, gsz), min(2, gsz - 1))
+                    for j in js:
+                        for k in sorted({1, j, rng.randint(1, j)}):
+                            cases.append({"fn": "svd", "op": e, "k": k, "which": rng.choice(["LM", "SM"]), "alg": "lanczos", "max_iters": j,
+                                          "wrapper": wrapper})
                 # selection-free algorithms: one k / which each (DenseSVD ignores both; recorded in the docstring)
                 for alg in ("omitted", "auto", "dense"):
                     cases.append({"fn": "svd", "op": e, "k": rng.choice(list(range(1, r + 1))), "which": rng.choice(["LM", "SM"]),
@@ -268,6 +536,35 @@ def svd_cases(ctx, rng, g):
         e = ["dense", "c64" if cplx else "f32", m, n, exmat(A)]
         cases.append({"fn": "svd", "op": e, "k": rng.randint(1, min(m, n)), "which": "LM", "alg": rng.choice(["omitted", "auto", "dense"]),
                       "wrapper": "dense-single"})
+    return cases
+
+
+def kind_svd_cases(ctx, rng, cat):
+    """svd on every operator kind: DenseSVD (one case), Lanczos full run for k = min(m, n) and one partial k (LM / SM) when the
+    singular values are separated; structural Identity / Diagonal kinds under every algorithm"""
+    cases = []
+    for inst in cat:
+        e, (m, n) = inst["op"], inst["shape"]
+        r = min(m, n)
+        w = "kind:" + inst["kind"]
+        cases.append({"fn": "svd", "op": e, "k": rng.randint(1, r), "which": rng.choice(["LM", "SM"]), "alg": rng.choice(["omitted", "auto", "dense"]),
+                      "wrapper": w})
+        if inst["sep"] >= SEP_MIN:
+            cases.append({"fn": "svd", "op": e, "k": r, "which": rng.choice(["LM", "SM"]), "alg": "lanczos", "wrapper": w})
+            if r > 1:
+                cases.append({"fn": "svd", "op": e, "k": rng.randint(1, r - 1), "which": rng.choice(["LM", "SM"]), "alg": "lanczos", "wrapper": w})
+            if ctx.thorough and r > 2:
+                j = rng.randint(1, r - 1)
+                cases.append({"fn": "svd", "op": e, "k": rng.randint(1, j), "which": rng.choice(["LM", "SM"]), "alg": "lanczos", "max_iters": j,
+                              "wrapper": w})
+    return cases
+
+
+def kind_pinv_cases(ctx, rng, cat):
+    cases = []
+    for inst in cat:
+        for alg in ("omitted", "auto", "lstsq", "cg"):
+            cases.append({"fn": "pinv", "op": inst["op"], "alg": alg, "wrapper": "kind:" + inst["kind"], "rhs_seed": rng.getrandbits(32)})
     return cases
 
 
@@ -407,6 +704,11 @@ def annotations_true(X, D, tol=None):
     return bad
 
 
+def is_partial(case, rule, m, n):
+    """a Lanczos run that stops before the Gram dimension: Ritz triplets, not singular triplets"""
+    return rule == "lanczos" and case.get("max_iters") is not None and case["max_iters"] < gram_size(m, n)
+
+
 def svd_oracle(case, rule, Ad, U, S, V):
     """property statement on the REAL outputs; -> list of failure strings"""
     fails = []
@@ -414,8 +716,10 @@ def svd_oracle(case, rule, Ad, U, S, V):
     r = min(m, n)
     Ud, Sd, Vd = np.asarray(U.to_dense()), np.asarray(S.to_dense()), np.asarray(V.to_dense())
     krylov = rule in ("lanczos", "lobpcg")
-    single = Ad.dtype in (np.float32, np.complex64)
+    # LOBPCG computes in float32 whatever the dtype of the operator (lobpcg.py): single-precision claim
+    single = Ad.dtype in (np.float32, np.complex64) or rule == "lobpcg"
     f = SINGLE_FACTOR if single else 1.0
+    partial = is_partial(case, rule, m, n)
     kexp = case["k"] if krylov else r
     if Ud.shape != (m, kexp) or Vd.shape != (n, kexp) or Sd.shape != (kexp, kexp):
         fails.append(f"shapes U{Ud.shape} S{Sd.shape} V{Vd.shape}, expected ({m},{kexp}) ({kexp},{kexp}) ({n},{kexp})")
@@ -435,7 +739,18 @@ def svd_oracle(case, rule, Ad, U, S, V):
         fails.append("Sigma not non-negative real: %s" % np.array2string(dg, precision=4))
     rec = Ud @ Sd @ Vd.conj().T
     smax = max(1.0, np.linalg.norm(Ad, 2)) if Ad.size else 1.0
-    if krylov and kexp < r:
+    if partial:
+        # Ritz triplets: the residual identity and the Ritz bounds (nothing is claimed about the truncated SVD)
+        tall = n <= m
+        want = (Ad @ Vd @ Vd.conj().T) if tall else (Ud @ Ud.conj().T @ Ad)
+        err = np.abs(rec - want).max(initial=0)
+        if err > TOL_FULL * smax * f:
+            fails.append("partial run: U Sigma V^H differs from %s: %.2e" % ("A V V^H" if tall else "U U^H A", err))
+        sv = np.linalg.svd(Ad, compute_uv=False)
+        dgr = np.real(dg)
+        if dgr.size and (dgr.max() > sv[0] * (1 + TOL_FULL) or dgr.min() < sv[-1] * (1 - TOL_FULL)):
+            fails.append("partial run: Ritz singular values outside [sigma_min, sigma_max]: %s" % np.array2string(dgr, precision=6))
+    elif krylov and kexp < r:
         u, s, vh = np.linalg.svd(Ad)
         sel = slice(0, kexp) if case["which"] == "LM" else slice(r - kexp, r)
         want = (u[:, sel] * s[sel]) @ vh[sel]
@@ -555,7 +870,9 @@ class Engine:
             return None
         m, n = Ad.shape
         if case["fn"] == "svd":
-            for alg in ("lanczos", "dense", "omitted", "auto"):
+            sv = np.linalg.svd(Ad, compute_uv=False)
+            separated = len(sv) < 2 or float(np.min((sv[:-1] - sv[1:]) / sv[:-1])) >= SEP_MIN
+            for alg in (("lanczos",) if separated else ()) + ("dense", "omitted", "auto"):   # Lanczos: inside the generator's domain only
                 for k in range(1, min(m, n) + 1):
                     for which in ("LM", "SM"):
                         c2 = dict(case, alg=alg, k=k, which=which)
@@ -602,7 +919,7 @@ class Engine:
                 rec["real"] = run_real_svd(c, A)
             except Exception as ex:  # noqa: BLE001
                 rec["real_err"] = err_obs(ex)
-            dc = {"id": i, "call": "svd", "op": c["op"], "k": c["k"], "which": c["which"], "alg": c["alg"]}
+            dc = {"id": i, "call": "svd", "op": c["op"], "k": c["k"], "which": c["which"], "alg": c["alg"], "want_den": True}
             rule = plan["rule"]
             m, n = rec["Ad"].shape
             try:
@@ -614,11 +931,23 @@ class Engine:
                                              for a, z in zip(mg, dg))
                 elif rule == "dense":
                     U0, s0, Vh0 = np.linalg.svd(rec["Ad"], full_matrices=True)
+                    rec["sigma_ties"] = len(set(np.asarray(s0).tolist())) < len(s0)
+                    rec["s0"] = np.asarray(s0)
                     dc["lapack"] = {"U": exmat(U0), "s": exvec(s0), "V": exmat(Vh0.T.conj())}
                 elif rule in ("lanczos", "lobpcg"):
                     if rule == "lobpcg":
-                        rec["smoke"] = True
-                        work.append((rec, None))
+                        # the eigensolver parameter: what lobpcg returns on the Gram operator (deterministic: local generator, seed 42)
+                        vals, Vop = L.lobpcg(A.H @ A, max_iters=300, largest=(c["which"] == "LM"))
+                        Vl = np.asarray(Vop.to_dense())
+                        vals = np.asarray(vals)
+                        sq = np.sqrt(np.where(np.real(vals) > 0, vals, 0))
+                        rec["W"] = (vals, Vl, None)
+                        if not finite(vals, Vl, sq):
+                            rec["nonfinite_params"] = True
+                            work.append((rec, None))
+                            continue
+                        dc["eigs"] = {"vals": exvec(vals), "V": exmat(Vl), "sq": exvec(sq)}
+                        work.append((rec, dc))
                         continue
                     G = (A.H @ A) if plan["tall"] else (A @ A.H)
                     gsz = c.get("max_iters") or gram_size(m, n)
@@ -655,8 +984,9 @@ class Engine:
             self.dist["diag-rule:" + ("negative-or-complex" if np.any(np.imag(dgv) != 0) or np.any(np.real(dgv) < 0) else "nonneg")] += 1
         if c["fn"] == "svd" and rule in ("lanczos",):
             self.dist["which:" + c["which"]] += 1
+            self.dist["lanczos-run:" + ("partial" if is_partial(c, rule, m, n) else "full")] += 1
         nontrivial = c["wrapper"] != "structural"
-        clauses = list(plan.get("clauses", []))
+        clauses = list((ans or {}).get("clauses", plan.get("clauses", [])))
         summ = {}
         # ---- real observation + oracle
         spec_fails = []
@@ -676,15 +1006,7 @@ class Engine:
             admissible_err = c["which"] not in ("LM", "SM") and rec["real_err"]["err"] == "not-implemented"
             if not admissible_err:
                 spec_fails = [f"svd raised {rec['real_err']['err']}: {rec['real_err'].get('msg', '')}"]
-        # ---- smoke-only / parameter problems
-        if rec.get("smoke"):
-            # LOBPCG: smoke only (rule selection + it runs and returns k triplets); accuracy is recorded, not judged
-            self.stats["lobpcg-smoke"] += 1
-            if spec_fails:
-                self.stats["lobpcg-smoke-inaccurate"] += 1
-                self.ctx.notes.append(f"lobpcg smoke: {spec_fails[:2]}")
-            self.account(c, "ok", False)
-            return
+        # ---- parameter problems (a failed oracle is never counted as ok)
         if rec.get("nonfinite_params") or rec.get("param_err"):
             if spec_fails:
                 self.violate({"case": strip(c), "real": summ, "spec_failures": spec_fails,
@@ -700,6 +1022,10 @@ class Engine:
             return
         # ---- real vs code
         tie = []
+        if "den" in ans:
+            dm = from_exact(ans["den"]).reshape(m, n)
+            if not close(Ad, dm, 1e-12 if plan["dtype"] in ("f64", "c128") else 1e-5):
+                tie.append("den: to_dense of the real operand differs from the represented matrix of the model")
         if "err" in ans:
             if fo is not None:
                 tie.append(f"err: model raises {ans['err']}, real returned")
@@ -717,6 +1043,8 @@ class Engine:
                     tie.append(f"{nm}.td_eq_den: the operator code model of to_dense differs from den")
                 if (a["rows"], a["cols"]) == (r_["rows"], r_["cols"]):
                     code = from_exact(a["code"]).reshape(a["rows"], a["cols"])
+                    if rule == "dense" and rec.get("sigma_ties") and nm in ("U", "V"):
+                        continue    # exactly tied singular values: the column order inside a tie is np.argsort's (not specified)
                     if rule == "diagonal" and nm == "U":
                         tol = ulp_tol(a["dtype"])       # phase = d / |d|: one rounded division
                     elif rule in ("dense", "identity", "diagonal"):
@@ -732,9 +1060,11 @@ class Engine:
                         tie.append(f"{nm}.value: |real - model| = {d:.3e} (tolerance {tol})")
                     elif code.size and tol:
                         self.maxerr[f"svd {rule} {nm} real-vs-model"] = max(self.maxerr[f"svd {rule} {nm} real-vs-model"], float(np.abs(np.asarray(r_["v"]) - code).max()))
-            if rule == "lanczos":
+            if rule in ("lanczos", "lobpcg"):
                 if not ans.get("back_eq", False):
                     tie.append("back_eq: operator code model of the back-substitution differs from the matrix formula")
+                if not ans.get("back_good", False):
+                    tie.append("back_good: the lazy product the rule densifies is not well-formed in the model")
                 vals, Q, Y = rec["W"]
                 sl = lib().get_slice(c["k"], c["which"])
                 if list(range(len(vals)))[sl] != ans["pos"]:
@@ -743,13 +1073,22 @@ class Engine:
                 X = rec["real"][2] if ans["tall"] else rec["real"][0]
                 try:
                     Wr = X.A
-                    if not (np.array_equal(np.asarray(Wr.Ms[0].to_dense()), Q) and np.array_equal(np.asarray(Wr.Ms[1].to_dense()), Y)):
-                        tie.append("gram: the eigenvector operator inside the real output is not lanczos_eigs of the Gram operator the model names")
+                    if rule == "lobpcg":
+                        same = np.array_equal(np.asarray(Wr.to_dense()), Q)
+                    else:
+                        same = np.array_equal(np.asarray(Wr.Ms[0].to_dense()), Q) and np.array_equal(np.asarray(Wr.Ms[1].to_dense()), Y)
+                    if not same:
+                        tie.append("gram: the eigenvector operator inside the real output is not the eigensolver's output on the Gram operator the model names")
                 except Exception:  # noqa: BLE001
                     tie.append("gram: sliced factor of the real output has no eigenvector operator")
             if rule == "dense":
-                s0 = np.linalg.svd(Ad, compute_uv=False)
-                if list(np.argsort(s0)) != ans["idx"]:
+                s0 = rec["s0"]          # the values LAPACK returned to the real code (same call, full_matrices=True)
+                if rec.get("sigma_ties"):
+                    # np.argsort is not stable: on exact ties only the sorted VALUES are specified (compared exactly through S above)
+                    self.dist["dense-svd:exactly-tied-singular-values"] += 1
+                    if sorted(ans["idx"]) != list(range(len(s0))) or any(s0[a] > s0[b] for a, b in zip(ans["idx"], ans["idx"][1:])):
+                        tie.append(f"idx: model {ans['idx']} is not an ascending permutation")
+                elif list(np.argsort(s0)) != ans["idx"]:
                     tie.append(f"idx: model {ans['idx']} numpy {list(np.argsort(s0))}")
             if rule in ("identity", "diagonal") and not rec.get("inexact_abs"):
                 drv = []
@@ -772,7 +1111,8 @@ class Engine:
 
     # ---- pinv
     def eval_pinv(self, cases):
-        answers = oracle.run_driver([{"id": i, "call": "pinv", "op": c["op"], "alg": c["alg"]} for i, c in enumerate(cases)], driver=DRIVER, nproc=NPROC_PLAN)
+        answers = oracle.run_driver([{"id": i, "call": "pinv", "op": c["op"], "alg": c["alg"], "want_den": True} for i, c in enumerate(cases)],
+                                    driver=DRIVER, nproc=NPROC)
         for i, c in enumerate(cases):
             ans = answers.get(i, {"error": "no answer from the driver"})
             if "error" in ans:
@@ -797,6 +1137,14 @@ class Engine:
         clauses = list(ans.get("clauses", []))
         nontrivial = c["wrapper"] != "structural"
         tie, spec_fails, summ = [], [], {}
+        ref = None
+        if "den" in ans:
+            # the represented matrix of the MODEL (exact `den`) is the reference of the oracle
+            ref = from_exact(ans["den"]).reshape(m, n)
+            if not close(Ad, ref, 1e-12 if Ad.dtype in (np.float64, np.complex128) else 1e-5):
+                tie.append("den: to_dense of the real operand differs from the represented matrix of the model")
+            if not np.iscomplexobj(Ad):
+                ref = np.real(ref)
         P = None
         try:
             alg = L.pinv_alg(c["alg"])
@@ -835,7 +1183,9 @@ class Engine:
                         spec_fails.append("the operator the rule builds is not the inverse (exact evaluation)")
                 elif kind == "lstsq":
                     stored = from_exact(ans["stored"]).reshape(m, n)
-                    if not close(np.asarray(P.A), stored, 1e-12):
+                    if summ["class"] != "LSTSQSolve" or not hasattr(P, "A"):
+                        tie.append(f"class: model builds LSTSQSolve, real returned {summ['class']}")
+                    elif not close(np.asarray(P.A), stored, 1e-12):
                         tie.append("stored: LSTSQSolve.A differs from to_dense of the operand")
                 elif kind == "cg":
                     try:
@@ -848,7 +1198,7 @@ class Engine:
                     except Exception as ex:  # noqa: BLE001
                         tie.append(f"cons: cannot read the regulariser of the real operator ({ex})")
             if c.get("rhs_seed") is not None:
-                nf, nsumm = pinv_numeric(c, A, Ad, P, self.maxerr)
+                nf, nsumm = pinv_numeric(c, A, Ad, P, self.maxerr, ref=ref)
                 spec_fails += nf
                 summ.update(nsumm)
         st = self.judge(c, tie, spec_fails, clauses, summ, ans)
@@ -867,7 +1217,7 @@ class Engine:
         }
 
 
-def pinv_numeric(c, A, Ad, P, maxerr=None):
+def pinv_numeric(c, A, Ad, P, maxerr=None, ref=None):
     """pinv(A) @ b on the REAL operator against np.linalg.pinv(A) @ b, for 1-D and 1-3 column right-hand sides"""
     L = lib()
     fails, summ = [], {}
@@ -880,7 +1230,7 @@ def pinv_numeric(c, A, Ad, P, maxerr=None):
             return [f"pinv raised {type(ex).__name__}: {str(ex)[:120]}"], {}
     g = np.random.default_rng(c["rhs_seed"])
     cplx = np.iscomplexobj(Ad)
-    Pn = np.linalg.pinv(Ad.astype(np.complex128 if cplx else np.float64))
+    Pn = np.linalg.pinv((Ad if ref is None else ref).astype(np.complex128 if cplx else np.float64))
     single = Ad.dtype in (np.float32, np.complex64)
     tol = TOL_CG if c["alg"] == "cg" and type(P).__name__.startswith("Product") else TOL_PINV
     if single:
@@ -1000,7 +1350,9 @@ def run(ctx):
     if ctx.replay:
         rp = json.load(open(ctx.replay))
         c = rp.get("case") or rp.get("original_case")
-        if c["fn"] == "svd":
+        if c.get("float_only"):
+            eval_float_only(eng, [c])
+        elif c["fn"] == "svd":
             eng.eval_svd([c])
         else:
             eng.eval_pinv([c])
@@ -1009,8 +1361,15 @@ def run(ctx):
         rng = random.Random(ctx.seed * 1000003 + 16)
         g = np.random.default_rng(rng.getrandbits(64))
         extra["primitive"] = primitive_stream(ctx, eng)
-        eng.eval_svd(svd_structural_cases(ctx, rng) + svd_cases(ctx, rng, g) + lobpcg_cases(ctx, rng, g))
-        eng.eval_pinv(pinv_cases(ctx, rng, g))
+        cat, missing = KindGen(rng, g).catalogue(ctx.thorough)
+        extra["kind_catalogue"] = {"instances": len(cat), "kinds": sorted({c["kind"] for c in cat}), "not_generated": missing,
+                                   "max_cond": max(c["cond"] for c in cat), "separated_for_lanczos": sum(c["sep"] >= SEP_MIN for c in cat)}
+        if missing:
+            common.violation(ctx, {"broken": "kind catalogue: no well-conditioned instance could be generated", "kinds": missing}, no_input=True)
+        extra["dispatch"] = dispatch_stream(ctx, eng, rng, cat)
+        eng.eval_svd(svd_structural_cases(ctx, rng) + svd_cases(ctx, rng, g) + kind_svd_cases(ctx, rng, cat) + lobpcg_cases(ctx, rng, g))
+        eng.eval_pinv(pinv_cases(ctx, rng, g) + kind_pinv_cases(ctx, rng, cat))
+        eval_float_only(eng, large_cases(ctx, rng))
         extra["auto_threshold"] = auto_threshold_stream(ctx, eng)
     if gate_err is not None and not ctx.violations:
         common.violation(ctx, {"broken": f"Lean gate of {MODULE}", "detail": gate_err[-3000:]}, no_input=True)
@@ -1020,27 +1379,238 @@ def run(ctx):
     cov["rule"] = ("svd: A = U0 diag(sigma) V0^H, random unitary U0, V0 (real / complex), sigma geometric in [0.5, 8], shapes 2..8 x 2..8 "
                    "(tall, wide, square), as Dense / no_dispatch / Sum / Product / Transpose / Adjoint operands; Lanczos(max_iters = Gram size, "
                    "tol 1e-12) for 1 <= k <= min(m, n) and which in {LM, SM}; omitted / Auto / DenseSVD; the Identity and Diagonal rules under "
-                   "every algorithm; LOBPCG smoke. pinv: the same operands with {omitted, Auto, LSTSQ, CG(tol 1e-12)}, right-hand sides (m,), "
+                   "every algorithm; LOBPCG (real / complex, LM / SM, k < n) at single-precision tolerances + witnesses of the recorded finding lobpcg-k-ge-n; partial Lanczos runs "
+                   "(max_iters < Gram size: orthonormality, residual identity, Ritz bounds); one well-conditioned instance (cond <= 16) of EVERY "
+                   "operator kind of the case language (kind_catalogue) under svd and pinv; the live dispatch tables of pinv / svd against the "
+                   "modelled rule set (dispatch); sizes up to 60 x 40 (thorough 120 x 80) on the float side only. pinv: the same operands with {omitted, Auto, LSTSQ, CG(tol 1e-12)}, right-hand sides (m,), "
                    "(m, 1), (m, 2..3); Identity / ScalarMul / Diagonal / Permutation (plain and annotated, all four dtypes). distinct = canonical "
                    "JSON of (function, operand, k, which, algorithm, rhs seed); non-trivial = not a structural-rule operand")
     cov["trusted_base_extra"] = [
         "lean/DriverC16.lean (JSON transport, the table instance of get_precision, sqrt as a lookup table of the values NumPy computed)",
-        "LAPACK svd / lstsq, lanczos_eigs (C14), the CG solver (C12) are parameters of the model; their contracts are hypotheses of the C16 theorems",
+        "LAPACK svd / lstsq, lanczos_eigs (C14), lobpcg, the CG solver (C12) are parameters of the model; their contracts are hypotheses of the "
+        "C16 theorems (CONTRACTS, labelled in Properties/C16.lean: lapack_contract, eigs_contract / ritz_contract, lstsq_contract, the CG contract)",
     ]
     common.write_evidence(ctx, gate, cov, assumptions=[
         "theorems are about exact real/complex arithmetic; rounding is outside the model (tolerances in the module docstring)",
         "'best rank-k approximation' is read as the truncated SVD on the selected singular values; Eckart-Young is not re-proved",
         "DenseSVD returns all min(m, n) triplets whatever k and which are; the property is read as U Sigma V^H = A there",
         "full rank is a hypothesis of the pinv statement: zero entries of a Diagonal / ScalarMul (where the code returns inf) are outside",
+        "CONTRACT (not proved): LAPACK gesdd returns a thin SVD (lapack_contract); lanczos_eigs / lobpcg return orthonormal (Ritz) eigenpairs "
+        "of the Gram operator (eigs_contract, ritz_contract; C14 proves the exact-arithmetic Lanczos relation); np.linalg.lstsq returns the "
+        "minimum-norm least-squares solution (lstsq_contract); CG returns a Krylov-space solution of the normal equations (C12)",
+        "LOBPCG computes in single precision (lobpcg.py: float32 / complex64): its cases are checked at the single-precision tolerances (x 1e4), "
+        "real and complex operators, which in {LM, SM}, k < n; k >= n is the recorded finding lobpcg-k-ge-n (known_findings.json)",
+        "partial Lanczos runs (max_iters < Gram size) return Ritz triplets: checked are orthonormal factors, Sigma >= 0, the residual identity "
+        "U Sigma V^H = A V V^H (resp. U U^H A) and the Ritz bounds, not the truncated SVD",
         "pinv through CG computes (cg(A^H A, A^H b) + cons * A^H b) with cons = get_precision(dtype) * max(m, n): the property holds up to "
         "cons * |A^H b| (float64: <= 5e-13 |x| on the generated inputs), checked with TOL_CG = 1e-8",
     ])
 
 
 def lobpcg_cases(ctx, rng, g):
-    """LOBPCG: smoke only (float32 internals, stochastic start block): rule selection and that it runs"""
+    """LOBPCG through the same three-way comparison: real and complex operands, which in {LM, SM}, k < n (the stated
+    single-precision claim), and witnesses of the recorded finding `lobpcg-k-ge-n`"""
     out = []
-    for (m, n) in [(6, 4), (5, 5)]:
-        e = make_operand(g, m, n, False, "dense")
-        out.append({"fn": "svd", "op": e, "k": 2, "which": "LM", "alg": "lobpcg", "wrapper": "dense"})
+    shapes = [(6, 4), (5, 5), (4, 6), (8, 3)] + ([(7, 7), (3, 8), (8, 8), (6, 2)] if ctx.thorough else [])
+    for (m, n) in shapes:
+        for cplx in (False, True):
+            wrapper = rng.choice(["dense", "generic", "sum", "prod", "T"])
+            e = make_operand(g, m, n, cplx, wrapper)
+            kmax = min(m, n - 1)
+            for k in sorted({1, kmax, rng.randint(1, kmax)}):
+                # 'SM' on a wide operand would select zero eigenvalues of the rank-deficient Gram operator A^H A: outside full rank
+                for which in (("LM", "SM") if n <= m else ("LM",)):
+                    out.append({"fn": "svd", "op": e, "k": k, "which": which, "alg": "lobpcg", "wrapper": wrapper})
+    # the recorded finding (expected: the real code agrees with the model and violates the property -> KNOWN-FINDING)
+    for cplx in (False, True):
+        e = make_operand(g, 5, 5, cplx, "dense")
+        out.append({"fn": "svd", "op": e, "k": 5, "which": "LM", "alg": "lobpcg", "wrapper": "dense"})
     return out
+
+
+# ------------------------------------------------------------------ the live dispatch tables
+# what Model/Svd.lean models: (class of the operator argument, class of the algorithm argument, has a condition)
+MODELLED = {
+    "pinv": {("LinearOperator", "Auto", False), ("LinearOperator", "CG", False), ("LinearOperator", "LSTSQ", False),
+             ("Identity", "Algorithm", False), ("ScalarMul", "Algorithm", False), ("Diagonal", "Algorithm", False),
+             ("Permutation", "Algorithm", False)},
+    "svd": {("LinearOperator", "Auto", False), ("LinearOperator", "DenseSVD", False), ("LinearOperator", "Lanczos", False),
+            ("LinearOperator", "LOBPCG", False), ("Identity", "Algorithm", False), ("Diagonal", "Algorithm", False)},
+}
+
+
+def hint_classes(h):
+    import types
+    import typing
+    if isinstance(h, types.UnionType) or typing.get_origin(h) is typing.Union:
+        out = []
+        for a in typing.get_args(h):
+            out += hint_classes(a)
+        return out
+    return [h] if isinstance(h, type) else []
+
+
+def live_rules(fname):
+    """the registered signatures of `fname`, read from the running plum dispatcher (as harness/translators/dump_rules.py does)"""
+    import inspect
+    import plum
+    lib()          # imports cola.linalg.svd.svd (not imported by `import cola`)
+    f = plum.dispatch.functions[fname]
+    f._resolve_pending_registrations()
+    out = []
+    for sg in f._resolver.signatures:
+        impl = inspect.unwrap(sg.implementation)
+        out.append({"types": list(sg.types), "cond": sg.condition, "prec": sg.precedence,
+                    "impl": f"{impl.__module__}:{impl.__code__.co_firstlineno}",
+                    "op_classes": hint_classes(sg.types[0]), "alg_classes": hint_classes(sg.types[-1]),
+                    "key": [(a.__name__, b.__name__, sg.condition is not None)
+                            for a in hint_classes(sg.types[0]) for b in hint_classes(sg.types[-1])]})
+    return out
+
+
+def dispatch_stream(ctx, eng, rng, cat):
+    """every live signature of pinv / svd: is it modelled, and how many catalogue instances (matching its types AND its condition)
+    were exercised; an unmodelled signature is a broken correspondence - its matching instances are searched for a failing input"""
+    L = lib()
+    report = {}
+    insts = []
+    for inst in cat:
+        try:
+            A = build.Builder().build(inst["op"])
+            insts.append((inst, A, np.asarray(A.to_dense())))
+        except Exception:  # noqa: BLE001
+            pass
+    algs = {"pinv": [("omitted", None)] + [(a, L.pinv_alg(a)) for a in ("auto", "lstsq", "cg")],
+            "svd": [("omitted", None)] + [(a, L.svd_alg(a, 8)) for a in ("auto", "dense", "lanczos", "lobpcg")]}
+    for fname in ("pinv", "svd"):
+        rules = live_rules(fname)
+        rep = []
+        seen = set()
+        for rl in rules:
+            keys = set(map(tuple, rl["key"]))
+            seen |= keys
+            modelled = bool(keys) and keys <= MODELLED[fname]
+            matching = []
+            for inst, A, Ad in insts:
+                if not any(isinstance(A, c) for c in rl["op_classes"]):
+                    continue
+                for aname, alg in algs[fname]:
+                    a_obj = alg if alg is not None else L.Auto()
+                    if not any(isinstance(a_obj, c) for c in rl["alg_classes"]):
+                        continue
+                    try:
+                        args = (A, a_obj) if fname == "pinv" else (A, 1, "LM", a_obj)
+                        if rl["cond"] is not None and not rl["cond"](*args):
+                            continue
+                    except Exception:  # noqa: BLE001
+                        continue
+                    matching.append((inst, A, Ad, aname))
+            rep.append({"signature": [getattr(t, "__name__", str(t)) for t in rl["types"]], "prec": int(rl["prec"]),
+                        "condition": rl["cond"] is not None, "impl": rl["impl"], "modelled": modelled,
+                        "catalogue_instances_matching": len(matching),
+                        "kinds_matching": sorted({x[0]["kind"] for x in matching})[:12]})
+            eng.stats["dispatch-signatures"] += 1
+            if modelled:
+                continue
+            # ---- a rule the model does not know: search its domain for an input on which the real code violates the property
+            eng.stats["dispatch-unmodelled"] += 1
+            found = None
+            order = sorted(matching, key=lambda x: (x[0]["kind"] not in ("prod-wide-tall", "prod-wide-sq-tall"), rng.random()))
+            for inst, A, Ad, aname in order[:200]:
+                if fname == "pinv":
+                    c2 = {"fn": "pinv", "op": inst["op"], "alg": aname, "wrapper": "kind:" + inst["kind"], "rhs_seed": 1}
+                    fails, summ = pinv_numeric(c2, A, Ad, None)
+                else:
+                    r = min(Ad.shape)
+                    if aname in ("lanczos", "lobpcg") and inst["sep"] < SEP_MIN:
+                        continue
+                    if aname == "lobpcg" and r < 2:
+                        continue
+                    c2 = {"fn": "svd", "op": inst["op"], "k": r if aname != "lobpcg" else min(r, Ad.shape[1] - 1), "which": "LM", "alg": aname,
+                          "wrapper": "kind:" + inst["kind"]}
+                    try:
+                        U, S, V = run_real_svd(c2, A)
+                        plan_rule = {"omitted": "dense", "auto": "dense"}.get(aname, aname)
+                        fails, summ = svd_oracle(c2, plan_rule, Ad, U, S, V), {}
+                    except Exception as ex:  # noqa: BLE001
+                        fails, summ = [f"raised {type(ex).__name__}: {str(ex)[:120]}"], {}
+                if fails:
+                    found = (c2, fails, summ)
+                    break
+            sig_txt = f"{fname}({', '.join(getattr(t, '__name__', str(t)) for t in rl['types'])})" + (" with a condition" if rl["cond"] is not None else "")
+            if found is not None:
+                c2, fails, summ = found
+                eng.violate({"case": strip(c2), "real": summ, "spec_failures": fails,
+                             "why": f"the live dispatch table has the rule {sig_txt} at {rl['impl']} which the model does not have; on this input "
+                                    f"(it matches the rule's signature and condition) the real code violates the property",
+                             "replay_cmd": f"./check {ctx.prop} quick --replay <this file>"})
+            else:
+                eng.violate({"broken": f"dispatch table of {fname}: the rule {sig_txt} at {rl['impl']} is not modelled "
+                                       f"({len(matching)} catalogue instances match it; the property held on all of them)"}, no_input=True)
+        for key in sorted(MODELLED[fname] - seen):
+            eng.violate({"broken": f"dispatch table of {fname}: the modelled rule {key} is not registered in the live dispatcher"}, no_input=True)
+        report[fname] = rep
+    return report
+
+
+# ------------------------------------------------------------------ larger sizes: float side only
+def large_operand(case):
+    gl = np.random.default_rng(case["gen"]["seed"])
+    A, *_ = make_matrix(gl, case["gen"]["m"], case["gen"]["n"], case["gen"]["cplx"])
+    L = lib()
+    w = case["gen"]["wrapper"]
+    D = L.cola.ops.Dense
+    if w == "dense":
+        return D(A), A
+    if w == "sum":
+        N = 0.25 * gl.standard_normal(A.shape)
+        return D(A / 2 + N) + D(A / 2 - N), A
+    if w == "prod":
+        u, s, vh = np.linalg.svd(A, full_matrices=False)
+        return D(u * np.sqrt(s)) @ D(np.sqrt(s)[:, None] * vh), A
+    raise ValueError(w)
+
+
+def large_cases(ctx, rng):
+    shapes = [(20, 12), (12, 20), (30, 30), (40, 25), (25, 40), (60, 40)] + ([(80, 80), (120, 80), (50, 100)] if ctx.thorough else [])
+    cases = []
+    for (m, n) in shapes:
+        for cplx in (False, True):
+            gen = {"m": m, "n": n, "cplx": cplx, "seed": rng.getrandbits(32), "wrapper": rng.choice(["dense", "dense", "sum", "prod"])}
+            r = min(m, n)
+            for k, which in ((r, "LM"), (rng.randint(1, r - 1), "LM"), (rng.randint(1, r - 1), "SM")):
+                cases.append({"fn": "svd", "float_only": True, "gen": gen, "k": k, "which": which, "alg": "lanczos", "wrapper": "large"})
+            for j in sorted({rng.randint(2, r // 2), rng.randint(r // 2, r - 1)}):
+                cases.append({"fn": "svd", "float_only": True, "gen": gen, "k": rng.randint(1, j), "which": rng.choice(["LM", "SM"]), "alg": "lanczos",
+                              "max_iters": j, "wrapper": "large"})
+            cases.append({"fn": "svd", "float_only": True, "gen": gen, "k": 1, "which": "LM", "alg": "dense", "wrapper": "large"})
+            for alg in ("lstsq", "cg"):
+                cases.append({"fn": "pinv", "float_only": True, "gen": gen, "alg": alg, "wrapper": "large", "rhs_seed": rng.getrandbits(32)})
+    return cases
+
+
+def eval_float_only(eng, cases):
+    """real code + oracle on inputs too large for the exact model run; counted separately (`ok-float`)"""
+    for c in cases:
+        A, Ad_nominal = large_operand(c)
+        Ad = np.asarray(A.to_dense())
+        m, n = Ad.shape
+        if c["fn"] == "svd":
+            rule = c["alg"]
+            try:
+                U, S, V = run_real_svd(c, A)
+                fails = svd_oracle(c, rule, Ad_nominal, U, S, V)
+            except Exception as ex:  # noqa: BLE001
+                fails = [f"svd raised {type(ex).__name__}: {str(ex)[:120]}"]
+            eng.dist["float-only:svd-" + rule + ("-partial" if is_partial(c, rule, m, n) else "")] += 1
+        else:
+            fails, _ = pinv_numeric(c, A, Ad, None, eng.maxerr, ref=Ad_nominal)
+            eng.dist["float-only:pinv-" + c["alg"]] += 1
+        eng.stats["evaluations"] += 1
+        if fails:
+            eng.stats["violation"] += 1
+            eng.violate({"case": strip(c), "spec_failures": fails,
+                         "why": "the real code violates the property on this input (float side only: the operand is regenerated from `gen`)",
+                         "replay_cmd": f"./check {eng.ctx.prop} quick --replay <this file>"})
+        else:
+            eng.stats["ok-float"] += 1
